@@ -454,7 +454,7 @@ Qed.
 Lemma set_construct_inv v t p k axes s :
   Inv s -> payload_ok s p -> Inv (fst (set_construct v t p k axes s)).
 Proof.
-  intros I Hp. unfold set_construct.
+  intros I Hp. unfold set_construct, set_construct_g. fold (spanned_by_field s).
   destruct (negb (kind_ok t p)) eqn:Ek; [exact I|]. apply negb_false_iff in Ek.
   destruct (negb (copyable_entry (t, EmptyString, p))); [exact I|].
   destruct (is_view v && ignored t); [exact I|].
@@ -670,7 +670,7 @@ Lemma del_construct_core_inv v k s :
   (is_view v = false -> cget DomainAxis k (cons s) <> None -> spanned_by_field s k = false) ->
   Inv (fst (del_construct_core v k s)).
 Proof.
-  intros I Hf. unfold del_construct_core.
+  intros I Hf. unfold del_construct_core, del_construct_core_g. fold (spanned_by_field s k).
   destruct (cget DomainAxis k (cons s)) as [q|] eqn:Eq.
   - destruct (spanned_by_construct s k || (is_view v && spanned_by_field s k)) eqn:Esp; [exact I|].
     apply orb_false_iff in Esp as [Esc Esf].
@@ -691,7 +691,7 @@ Qed.
 
 Lemma del_construct_inv v k s : Inv s -> Inv (fst (del_construct v k s)).
 Proof.
-  intros I. unfold del_construct. destruct v.
+  intros I. unfold del_construct, del_construct_g. fold (del_construct_core VField k s) (del_construct_core VDomain k s) (del_construct_core VCore k s). destruct v.
   - (* cfdm.Field route *)
     destruct (visible_type VField s k); [|exact I].
     destruct (cget DomainAxis k (cons s)) eqn:Eq.
@@ -910,7 +910,7 @@ Lemma set_new_axis s a :
   (mkS (cset DomainAxis a (PAxis 1) (cons s)) (aset a DomainAxis (ctys s)) (caxes s)
        (fshape s) (faxes s), Done).
 Proof.
-  intros I H. unfold set_construct. cbn [kind_ok copyable_entry negb orb is_view andb].
+  intros I H. unfold set_construct, set_construct_g. cbn [kind_ok copyable_entry negb orb is_view andb].
   rewrite H. rewrite (not_registered_not_held s a DomainAxis I (new_identifier_fresh s _ a H)).
   reflexivity.
 Qed.
@@ -1715,7 +1715,7 @@ Qed.
 
 Lemma convert_inv k full s : Inv s -> Inv (fst (convert k full s)).
 Proof.
-  intros I. unfold convert.
+  intros I. unfold convert, convert_with.
   destruct (assoc k (ctys s)) as [t|]; [|exact I].
   destruct (negb (is_array t)); [exact I|].
   destruct (cget t k (cons s)) as [p|]; [|exact I].
@@ -1970,7 +1970,7 @@ Lemma rejected_unchanged s o e :
   snd (step s o) = Rejected e -> fst (step s o) = s.
 Proof.
   destruct o; intro H; try contradiction; cbn [step].
-  - unfold set_construct.
+  - unfold set_construct, set_construct_g.
     repeat match goal with
            | |- context [if ?c then _ else _] => destruct c
            | |- context [match ?x with Some _ => _ | None => _ end] => destruct x
@@ -2140,3 +2140,225 @@ Proof.
   destruct (domain_view_same (run ops) I) as [A B]. split; [exact A|].
   intros t k p Hin. destruct (B t k p Hin) as [X [Y _]]. auto.
 Qed.
+
+(* ------------------------------------------------------------------ *)
+(* views of views: every register acts on, and is checked against, the root *)
+(* ------------------------------------------------------------------ *)
+(* every view's _view_source is the field's own container *)
+Definition wf (w : wstate) : Prop := Forall (fun v => vsrc v = O) (views w).
+
+Lemma wf_init : wf winit.
+Proof. constructor. Qed.
+
+Lemma wf_reg_src w r : wf w -> reg_src w r = O.
+Proof.
+  intro H. destruct r as [|i]; [reflexivity|]. simpl.
+  destruct (nth_error (views w) i) as [v|] eqn:E; [|reflexivity].
+  unfold wf in H. rewrite Forall_forall in H. apply H. eapply nth_error_In; eauto.
+Qed.
+
+Lemma step_g_root s o : step_g (faxes s) s o = step s o.
+Proof. destruct o; reflexivity. Qed.
+
+Lemma wstep_wf w wo : wf w -> wf (fst (wstep w wo)).
+Proof.
+  intro H. destruct wo as [o|r route|r o|n]; unfold wstep, wstep_with; [| | |exact H].
+  - destruct (step (root w) o) as [s' out]. cbn [fst views].
+    destruct out; try exact H. destruct (rebinds o); [constructor|exact H].
+  - destruct (reg_valid w r); [|exact H]. cbn [fst]. unfold take_view, wf. cbn [views].
+    apply Forall_app. split; [exact H|]. constructor; [|constructor]. cbn [vsrc].
+    unfold rule_head. apply wf_reg_src; assumption.
+  - destruct r as [|i]; [exact H|]. destruct (nth_error (views w) i) as [v|]; [|exact H].
+    destruct (viewable o); [|exact H].
+    destruct (step_g (reg_fda w (vsrc v)) (root w) o) as [s' out]. exact H.
+Qed.
+
+Lemma wrun_wf_from ops : forall w, wf w -> wf (fold_left (fun w o => fst (wstep w o)) ops w).
+Proof. induction ops as [|o r IH]; intros w H; simpl; [exact H|]. apply IH. apply wstep_wf; assumption. Qed.
+
+Lemma wrun_wf ops : wf (wrun ops).
+Proof. apply wrun_wf_from. apply wf_init. Qed.
+
+(* a call through a view register, whatever the nesting of the view, is the
+   call on the root: it mutates the root's collection and every guard is
+   evaluated against the root (in particular against the field's data axes) *)
+Lemma through_root w i v o :
+  wf w -> nth_error (views w) i = Some v -> viewable o = true ->
+  wstep w (Through (S i) o) = (mkW (fst (step (root w) o)) (views w), snd (step (root w) o)).
+Proof.
+  intros H Hn Hv. unfold wstep, wstep_with. rewrite Hn, Hv.
+  assert (Hs : vsrc v = O).
+  { unfold wf in H. rewrite Forall_forall in H. apply H. eapply nth_error_In; eauto. }
+  rewrite Hs. cbn [reg_fda]. rewrite step_g_root. destruct (step (root w) o); reflexivity.
+Qed.
+
+Lemma through_any_depth ops i j vi vj o :
+  nth_error (views (wrun ops)) i = Some vi -> nth_error (views (wrun ops)) j = Some vj ->
+  viewable o = true ->
+  wstep (wrun ops) (Through (S i) o) = wstep (wrun ops) (Through (S j) o) /\
+  root (fst (wstep (wrun ops) (Through (S i) o))) = fst (step (root (wrun ops)) o) /\
+  snd (wstep (wrun ops) (Through (S i) o)) = snd (step (root (wrun ops)) o).
+Proof.
+  intros Hi Hj Hv. pose proof (wrun_wf ops) as H.
+  rewrite (through_root _ _ _ _ H Hi Hv), (through_root _ _ _ _ H Hj Hv). auto.
+Qed.
+
+(* the caller-data guard, for the register language *)
+Definition wop_ok (w : wstate) (wo : wop) : Prop :=
+  match wo with
+  | Plain o | Through _ o => op_ok (root w) o
+  | TakeView _ _ | OnSibling _ => True
+  end.
+
+Lemma clean_in_shape rk k t k' p :
+  exists p', clean_in rk k (t, k', p) = (t, k', p') /\ (p' = p \/ p' = clean_payload k t p).
+Proof.
+  unfold clean_in. cbn [fst snd]. destruct (String.eqb rk k').
+  - rewrite clean_ref_shape. eauto.
+  - eauto.
+Qed.
+
+(* removing a name from one coordinate reference: harmless *)
+Lemma inv_clean_in s rk k :
+  Inv s -> Inv (mkS (map (clean_in rk k) (cons s)) (ctys s) (caxes s) (fshape s) (faxes s)).
+Proof.
+  intros I. set (g := clean_in rk k).
+  assert (Hkey : forall e, In e (cons s) -> ctyp (g e) = ctyp e /\ ckey (g e) = ckey e).
+  { intros [[t k'] p] _. destruct (clean_in_shape rk k t k' p) as [p' [H _]]. unfold g. rewrite H. auto. }
+  assert (Hcget : forall t k', cget t k' (map g (cons s)) =
+            match cget t k' (cons s) with Some p => Some (snd (g (t, k', p))) | None => None end).
+  { intros. apply cget_map_keyed. exact Hkey. }
+  assert (Hid : forall t k' p, t <> CoordRef -> g (t, k', p) = (t, k', p)).
+  { intros t k' p Ht. destruct (clean_in_shape rk k t k' p) as [p' [H [->| ->]]]; unfold g; rewrite H;
+      [reflexivity|rewrite clean_payload_id by assumption; reflexivity]. }
+  assert (Hsz : forall a, axis_size (map g (cons s)) a = axis_size (cons s) a).
+  { intro a. unfold axis_size. rewrite Hcget. destruct (cget DomainAxis a (cons s)); [|reflexivity].
+    rewrite Hid by discriminate. reflexivity. }
+  constructor; cbn [cons ctys caxes fshape faxes].
+  - intros t k' p' Hin. apply in_map_iff in Hin as [[[t0 k0] p] [Heq Hin]].
+    destruct (clean_in_shape rk k t0 k0 p) as [q [H Hq]]. fold g in H. rewrite H in Heq. inversion Heq; subst.
+    destruct (inv_held s I t k' p Hin) as [A [B C]]. splits; auto.
+    + destruct Hq as [->| ->]; [assumption|rewrite kind_ok_clean; assumption].
+    + rewrite Hcget, C, H. reflexivity.
+  - intros k' t H. destruct (inv_typed s I k' t H) as [p Hp]. rewrite Hcget, Hp. eauto.
+  - intros k' axs H. destruct (inv_axes s I k' axs H) as [t [p [A [B [C D]]]]].
+    exists t, p. splits; auto.
+    + rewrite Hcget, C, Hid by (intro; subst; discriminate). reflexivity.
+    + rewrite <- D. apply check_axes_ext. intros; apply Hsz.
+  - intros ax Hax. rewrite <- (inv_field s I ax Hax). apply check_field_axes_ext. intros; apply Hsz.
+  - intros rk' cs ancs Hin. apply in_map_iff in Hin as [[[t0 k0] p] [Heq Hin]].
+    destruct (clean_in_shape rk k t0 k0 p) as [q [H Hq]]. fold g in H. rewrite H in Heq. inversion Heq; subst.
+    destruct (inv_held s I _ _ _ Hin) as [_ [Hko _]].
+    destruct p; simpl in Hko; try discriminate.
+    destruct (inv_refs s I rk' coords ancs0 Hin) as [R1 R2].
+    destruct Hq as [Hq|Hq]; [inversion Hq; subst; auto|].
+    unfold clean_payload in Hq. simpl in Hq. inversion Hq; subst. split.
+    + intros c Hc. apply filter_In in Hc as [Hc _]. auto.
+    + intros term a Ha. apply in_map_iff in Ha as [[tm oa] [Heq' Ha0]]. simpl in Heq'.
+      destruct oa as [a'|]; [|inversion Heq'].
+      destruct (String.eqb k a') eqn:Eka; [inversion Heq'|].
+      inversion Heq'; subst. eapply R2; eauto.
+  - intros ck axs Hin a Ha. apply in_map_iff in Hin as [[[t0 k0] p] [Heq Hin]].
+    destruct (Hkey _ Hin) as [Ht _]. rewrite Heq in Ht. cbn in Ht. subst t0.
+    rewrite Hid in Heq by discriminate. inversion Heq; subst.
+    rewrite Hsz. eapply (inv_cms s I); eauto.
+Qed.
+
+Lemma clean_names_inv ks : forall s, Inv s -> Inv (clean_names ks s).
+Proof.
+  unfold clean_names. induction ks as [|[rk k] r IH]; intros s I; simpl; [exact I|].
+  apply IH. apply inv_clean_in. exact I.
+Qed.
+
+Lemma cget_map_clean_in rk k t k' l :
+  t <> CoordRef -> cget t k' (map (clean_in rk k) l) = cget t k' l.
+Proof.
+  intro Ht. induction l as [|[[a b] c] r IH]; simpl; [reflexivity|].
+  destruct (clean_in_shape rk k a b c) as [p' [H Hp]]. rewrite H.
+  assert (Hs : same_entry t k' (a, b, p') = same_entry t k' (a, b, c)) by reflexivity.
+  rewrite Hs. destruct (same_entry t k' (a, b, c)) eqn:E; [|exact IH].
+  apply same_entry_true in E as [E1 E2]; simpl in *; subst a.
+  destruct Hp as [->| ->]; [reflexivity|rewrite clean_payload_id by assumption; reflexivity].
+Qed.
+
+Lemma clean_names_frame ks : forall s,
+  ctys (clean_names ks s) = ctys s /\ caxes (clean_names ks s) = caxes s /\
+  fshape (clean_names ks s) = fshape s /\ faxes (clean_names ks s) = faxes s /\
+  (forall t k, t <> CoordRef -> cget t k (cons (clean_names ks s)) = cget t k (cons s)).
+Proof.
+  unfold clean_names. induction ks as [|[rk k] r IH]; intros s; simpl; [auto|].
+  destruct (IH (mkS (map (clean_in rk k) (cons s)) (ctys s) (caxes s) (fshape s) (faxes s))) as [A [B [C [D E]]]].
+  cbn [ctys caxes fshape faxes cons] in *. splits; auto.
+  intros t k0 Ht. rewrite (E t k0 Ht). apply cget_map_clean_in; assumption.
+Qed.
+
+Lemma wstep_inv w wo : wf w -> Inv (root w) -> wop_ok w wo -> Inv (root (fst (wstep w wo))).
+Proof.
+  intros H I Hok. destruct wo as [o|r route|r o|n]; [| | |apply clean_names_inv; exact I].
+  - unfold wstep, wstep_with. pose proof (step_inv (root w) o I Hok) as H1.
+    destruct (step (root w) o) as [s' out]. exact H1.
+  - unfold wstep, wstep_with. destruct (reg_valid w r); exact I.
+  - destruct r as [|i]; [exact I|].
+    destruct (nth_error (views w) i) as [v|] eqn:Hn; [|unfold wstep, wstep_with; rewrite Hn; exact I].
+    destruct (viewable o) eqn:Hv; [|unfold wstep, wstep_with; rewrite Hn, Hv; exact I].
+    rewrite (through_root w i v o H Hn Hv). cbn [fst root]. apply step_inv; assumption.
+Qed.
+
+Fixpoint wops_ok (w : wstate) (ops : list wop) : Prop :=
+  match ops with
+  | [] => True
+  | o :: r => wop_ok w o /\ wops_ok (fst (wstep w o)) r
+  end.
+
+Lemma wrun_inv_from ops : forall w, wf w -> Inv (root w) -> wops_ok w ops ->
+  Inv (root (fold_left (fun w o => fst (wstep w o)) ops w)).
+Proof.
+  induction ops as [|o r IH]; intros w H I Hok; simpl in *; [exact I|].
+  destruct Hok as [H1 H2]. apply IH; [apply wstep_wf; assumption|apply wstep_inv; assumption|assumption].
+Qed.
+
+Lemma wrun_inv ops : wops_ok winit ops -> Inv (root (wrun ops)).
+Proof. intro H. apply wrun_inv_from; [apply wf_init|apply inv_init|assumption]. Qed.
+
+(* non-vacuity and the guard at depth 3: the field's data span an axis that
+   no construct spans; views of views of views refuse to delete or resize it *)
+Definition nested_history : list wop :=
+  [ Plain (SetConstruct VField DomainAxis (PAxis 4) None None);
+    Plain (SetData [4] (Some ["domainaxis0"]));
+    TakeView 0 RSource;
+    Plain (InsertDimension None 0 false true []);
+    TakeView 1 RFromConstructs;
+    TakeView 2 RSource;
+    Through 3 (DelConstruct VDomain "domainaxis1");
+    Through 2 (SetConstruct VDomain DomainAxis (PAxis 2) (Some "domainaxis1") None);
+    Through 3 (SetConstruct VDomain AuxCoord (PArr (Some [1; 4]) true None) None
+                 (Some ["domainaxis1"; "domainaxis0"])) ].
+
+Lemma nested_example :
+  map (fun n => snd (wstep (wrun (firstn n nested_history)) (nth n nested_history (TakeView 0 RSource))))
+      [6; 7; 8]%nat = [Rejected ValueErr; Rejected ValueErr; Done] /\
+  map vsrc (views (wrun nested_history)) = [O; O; O] /\
+  map vparent (views (wrun nested_history)) = [0; 1; 2]%nat /\
+  faxes (root (wrun nested_history)) = Some ["domainaxis1"; "domainaxis0"] /\
+  cget AuxCoord "auxiliarycoordinate0" (cons (root (wrun nested_history))) = Some (PArr (Some [1; 4]) true None).
+Proof. repeat split; vm_compute; reflexivity. Qed.
+
+(* what a coordinate reference of a consistent field names is held by the field *)
+Lemma refs_resolve s rk cs ancs :
+  Inv s -> In (CoordRef, rk, PRef cs ancs) (cons s) ->
+  (forall c, In c cs -> exists t p, In (t, c, p) (cons s) /\ is_coord t = true) /\
+  (forall term a, In (term, Some a) ancs -> exists p, In (DomainAnc, a, p) (cons s)).
+Proof.
+  intros I Hin. destruct (inv_refs s I rk cs ancs Hin) as [R1 R2]. split.
+  - intros c Hc. destruct (R1 c Hc) as [t [Ht Hok]]. destruct (inv_typed s I c t Ht) as [p Hp].
+    exists t, p. split; [apply cget_In; assumption|assumption].
+  - intros term a Ha. destruct (R2 term a Ha) as [t [Ht Hok]].
+    assert (t = DomainAnc) by (destruct t; try discriminate; reflexivity). subst.
+    destruct (inv_typed s I a DomainAnc Ht) as [p Hp]. exists p. apply cget_In; assumption.
+Qed.
+
+Lemma convert_carries_named s k full rk cs ancs :
+  Inv s -> In (CoordRef, rk, PRef cs ancs) (cons (fst (convert k full s))) ->
+  (forall c, In c cs -> exists t p, In (t, c, p) (cons (fst (convert k full s))) /\ is_coord t = true) /\
+  (forall term a, In (term, Some a) ancs -> exists p, In (DomainAnc, a, p) (cons (fst (convert k full s)))).
+Proof. intros I. apply refs_resolve. apply convert_inv; assumption. Qed.
